@@ -7,13 +7,16 @@ logical clock (see `Clock`): upload.py reads `os.stat` through a proxy that firs
 with the next tick, files written in hash mode are stamped when the storage call returns.
 """
 import contextlib
+import errno
 import hashlib
 import os
 import pickle
 import random
 import re
 import shutil
+import sys
 import tempfile
+import types
 import xml.etree.ElementTree as ET
 
 from vlib import impl
@@ -21,6 +24,7 @@ from vlib import impl
 import radicale.item as ritem
 import radicale.storage as rstorage
 from radicale.storage import multifilesystem as mfs
+from radicale.storage.multifilesystem import cache as mfs_cache
 from radicale.storage.multifilesystem import upload as mfs_upload
 
 REAL_VERSION = rstorage.CACHE_VERSION
@@ -29,6 +33,7 @@ LOGICAL_BASE = 10 ** 18         # logical mtimes: 10**18 + small (September 2001
 LOGICAL_MAX = LOGICAL_BASE + 10 ** 12   # so float seconds cannot tell t from t+1 ns (a key built from st_mtime would be too coarse)
 
 CUR = [None]                    # the active harness (one per process)
+STOCK = ["utf-8"]               # [encoding] stock of the current pair / probe: the encoding of the item files
 
 
 # ------------------------------------------------------------------------------------------ patches (installed once)
@@ -56,6 +61,36 @@ def install():
                  upload=C.upload, delete=C.delete, list=C._list, lock=C._acquire_cache_lock,
                  move=S.move, create=S.create_collection)
     mfs_upload.os = _OsProxy()
+
+    # fault injection at the moment a cache entry is written (cache.py calls pickle.dump on the open entry file)
+    def faulty_dump(obj, fb, *a, **k):
+        h = CUR[0]
+        f = h.fault if h is not None else None
+        if f is not None and ((f["where"] == "upload" and h.cur_upload is not None and h.cur_get is None)
+                              or (f["where"] == "get" and h.cur_get is not None)):
+            h.fault = None
+            h.fault_fired = f
+            if f["kind"] == "partial":
+                data = pickle.dumps(obj)
+                fb.write(data[:len(data) // 2])
+                fb.flush()
+            raise OSError(errno.ENOSPC, os.strerror(errno.ENOSPC))
+        return pickle.dump(obj, fb, *a, **k)
+    mfs_cache.pickle = types.SimpleNamespace(dump=faulty_dump, load=pickle.load, UnpicklingError=pickle.UnpicklingError)
+
+    # rule: an entry file is only ever published by a rename -- nobody opens a final entry path for writing
+    def audit(event, args):
+        if event != "open":
+            return
+        h = CUR[0]
+        if h is None or not h.tracing or h.harness_write:
+            return
+        path, _mode, flags = args
+        if (isinstance(path, str) and isinstance(flags, int) and flags & (os.O_WRONLY | os.O_RDWR)
+                and "/.Radicale.cache/item/" in path and ".Radicale.tmp-" not in path
+                and is_item_name(os.path.basename(path))):
+            h.rule_violations.append(path)
+    sys.addaudithook(audit)
 
     def w_get(self, href, verify_href=True):
         h = CUR[0]
@@ -161,10 +196,10 @@ def install():
 
 
 # ------------------------------------------------------------------------------------------ cold derivation
-def cold_derive(tag, data):
+def cold_derive(tag, data, enc=None):
     """What a server without cache computes from the bytes (public item API only, nothing from cache.py/get.py)."""
     try:
-        items = list(ritem.read_components(data.decode("utf-8")))
+        items = list(ritem.read_components(data.decode(enc or STOCK[0])))
         ritem.check_and_sanitize_items(items, tag=tag)
         (v,) = items
         it = ritem.Item(collection_path="x", vobject_item=v)
@@ -231,6 +266,8 @@ def g_act(a):
         return "(XOp (OList %d))" % a[1]
     if k == "upload":
         return "(XOp (OUpload %d %d %d %s %d))" % (a[1], a[2], a[3], g_file(a[4]), a[5])
+    if k == "uploadfail":
+        return "(XOp (OUploadFail %d %d %s))" % (a[1], a[2], g_file(a[3]))
     if k == "create":
         return "(XOp (OCreate %d [%s]))" % (a[1], ";".join("(%d, %s, %d)" % (h, g_file(f), d) for h, f, d in a[2]))
     if k == "move":
@@ -324,6 +361,10 @@ class Run:
                        2: os.path.join(self.folder, "altcache", "collection-cache")}
         self.emit(("cfg", dict(self.cfg)), [])
         self.unmodelled = []
+        self.fault = None          # dict(where="upload"|"get", kind="before"|"partial"): next cache-entry write fails
+        self.fault_fired = None
+        self.harness_write = False
+        self.rule_violations = []
         self.stat_seen = {}        # (size, mtime) -> content id, for every file version of this run (keeps stat_ok true)
 
     def close(self):
@@ -337,6 +378,7 @@ class Run:
                             "use_cache_subfolder_for_item": str(bool(cfg["sub"])),
                             "filesystem_cache_folder": os.path.join(self.folder, "altcache") if cfg["sub"] == 2 else "",
                             "skip_broken_item": str(bool(cfg["skip"]))},
+                "encoding": {"stock": STOCK[0]},
                 "auth": {"type": "none"}, "rights": {"type": "authenticated"}}
 
     def reconfigure(self, cfg):
@@ -442,6 +484,9 @@ class Run:
         if self.cur_upload is not None:
             self.cur_upload["get"] = code
             return
+        if self.fault_fired is not None and self.fault_fired["where"] == "get":
+            self.fault_fired = None           # probe only: the model has no "_get whose store fails" (state unchanged)
+            return
         self.set_lock(coll)
         if rec["interf"] is not None:
             self.emit(("getat", self.obj_of(coll), c, h, rec["interf"]), code)
@@ -476,11 +521,16 @@ class Run:
     def end_upload(self, rec, res, exc):
         self.cur_upload = None
         coll = rec["coll"]
+        path = os.path.join(coll._filesystem_path, rec["href"])
         if exc is not None:
-            self.unmodelled.append("upload raised %r" % (exc,))
+            if self.fault_fired is not None and self.fault_fired["where"] == "upload":
+                self.fault_fired = None
+                self.set_lock(coll)
+                self.emit(("uploadfail", self.coll_of(coll), self.d.href(rec["href"]), self.file_of(coll.tag, path)), [50])
+            else:
+                self.unmodelled.append("upload raised %r" % (exc,))
             return
         self.set_lock(coll)
-        path = os.path.join(coll._filesystem_path, rec["href"])
         f = self.file_of(coll.tag, path)
         d = self.d.table.get(f[0])
         code = [1, self.d.did(self.item_tuple(res))]
@@ -548,6 +598,8 @@ class Run:
             hash_, *rest = t
         except ValueError:
             return [3]
+        except TypeError:
+            return [4]                 # not a sequence: _load_item_cache raises TypeError, which it does not catch
         if not hash_:
             return [3]
         try:
@@ -567,6 +619,13 @@ class Run:
         self.emit(("dump", keys), [len(ents)] + code)
 
     def apply_adv_fs(self, a):
+        self.harness_write = True
+        try:
+            self._apply_adv_fs(a)
+        finally:
+            self.harness_write = False
+
+    def _apply_adv_fs(self, a):
         """Do the manipulation [a] (already in numeric form) on the real folders; names via reverse dictionaries."""
         rc = {v: k for k, v in self.d.colls.items()}
         rh = {v: k for k, v in self.d.hrefs.items()}
@@ -604,13 +663,13 @@ class Run:
         self.emit(("adv", a), [])
 
     # ---------------------------------------------------------------- external edit (under the storage lock)
-    def ext_edit(self, collpath, tag, name, data, mtime):
+    def ext_edit(self, collpath, tag, name, data, mtime, force=False):
         """Write (data is bytes) or remove (data None) an item file by other means."""
         storage = self.srv.application._storage
         p = os.path.join(self.root, collpath, name)
         if data is not None:
             # the hypothesis of the mtime+size mode: never two different contents with the same size and mtime
-            if self.stat_seen.get((len(data), mtime), self.d.content(tag, data)) != self.d.content(tag, data):
+            if not force and self.stat_seen.get((len(data), mtime), self.d.content(tag, data)) != self.d.content(tag, data):
                 mtime = self.tick()
             self.stat_seen[(len(data), mtime)] = self.d.content(tag, data)
         with storage.acquire_lock("w"):
@@ -633,11 +692,14 @@ class Run:
         self.tracing = True
         self.req_gets = {}
         self._lk = None
+        self.rule_violations = []
         try:
             st, hd, body = self.srv.request(method, path, data=data, login="u:", **headers)
         finally:
             self.tracing = False
             self.interfere = None
+            self.fault = None
+            self.fault_fired = None
             self.cur_get = self.cur_upload = None
         # files written in hash mode get their logical mtime now (nobody has looked at it yet)
         for root, dirs, files in os.walk(self.root):
@@ -685,7 +747,7 @@ NK = 16
 def component(tag, uid, k):
     """The VEVENT / VTODO / VCARD block of variant k."""
     if tag == "VADDRESSBOOK":
-        fn = ("n%d" % k) if k < 4 else "a longer name %d" % k
+        fn = ("n%d" % k) if k < 4 else ("a longer name %d" % k if k != 5 else "J\u00fcrgen \u00e9t\u00e9 %d" % k)
         extra = ""
         if k == 8:      # PHOTO given as a data URI
             extra = "PHOTO;ENCODING=b;TYPE=JPEG:data:image/jpeg;base64,QUJDREVGR0g=\r\n"
@@ -705,7 +767,7 @@ def component(tag, uid, k):
     if k == 7:
         return "BEGIN:VTODO\r\nUID:%s\r\nSUMMARY:todo%d\r\nDUE:20130903T120000Z\r\n%sEND:VTODO\r\n" % (uid, k, STAMP)
     day = 1 + k % 5
-    summary = ("s%d" % k) if k < 4 else "a longer summary %d" % k
+    summary = ("s%d" % k) if k < 4 else ("a longer summary %d" % k if k != 5 else "\u00e9t\u00e9 \u00fc %d" % k)   # non-ASCII, in latin-1
     start = "DTSTART:201309%02dT180000Z\r\n" % day
     end = "DTEND:201309%02dT190000Z\r\n" % day
     extra = ""
@@ -748,8 +810,8 @@ def ext_body(tag, uid, k, size=None):
     """A valid object as some other program would write it; padded to exactly `size` bytes when asked (and possible)."""
     def mk(pad):
         if tag == "VADDRESSBOOK":
-            return ("BEGIN:VCARD\r\nVERSION:3.0\r\nUID:%s\r\nFN:ext%d\r\nN:ext%d;;;;\r\nNOTE:%s\r\nEND:VCARD\r\n" % (uid, k, k, pad)).encode()
-        return impl.event(uid, summary="ext%d" % k, extra="DESCRIPTION:%s\r\n" % pad + STAMP).encode()
+            return ("BEGIN:VCARD\r\nVERSION:3.0\r\nUID:%s\r\nFN:ext%d\r\nN:ext%d;;;;\r\nNOTE:%s\r\nEND:VCARD\r\n" % (uid, k, k, pad)).encode(STOCK[0])
+        return impl.event(uid, summary=("ext%d" % k) if k % 3 else "ext\u00e9%d" % k, extra="DESCRIPTION:%s\r\n" % pad + STAMP).encode(STOCK[0])
     if size is None:
         return mk("p" * (k % 7))
     base = len(mk(""))
@@ -788,7 +850,7 @@ def query(tag, comp, rng):
             '</C:comp-filter></C:comp-filter></C:filter></C:calendar-query>' % (comp, tr))
 
 
-def gen_history(rng, n):
+def gen_history(rng, n, hash_only=False):
     """A list of request / external-edit descriptions; does not depend on any server state."""
     hist = [("propfind", "u", "0"), ("mk", "u/cal1"), ("mk", "u/cal2"), ("mk", "u/ab1")]
     colls = list(COLLS)
@@ -807,6 +869,12 @@ def gen_history(rng, n):
         if x < 0.26:
             nme = name_in(c)
             uid = nme.split(".")[0] if rng.random() < 0.85 else rng.choice("abc")
+            if rng.random() < 0.1:
+                # the disk is full exactly when upload() writes the cache entry (nothing / half of it reaches the file)
+                hist.append(("putfault", c, nme, nme.split(".")[0], draw_k(rng), rng.choice(["before", "partial"])))
+                if rng.random() < 0.7:
+                    hist.append(("get", c, nme))
+                continue
             hist.append(("put", c, nme, uid, draw_k(rng)))
         elif x < 0.36:
             hist.append(("get", c, name_in(c)))
@@ -843,7 +911,7 @@ def gen_history(rng, n):
         else:
             nme = name_in(c)
             pol = rng.choice(["fresh", "fresh", "same-size", "same-size", "same-mtime", "same-mtime", "mtime+1", "mtime-1",
-                              "broken", "remove", "touch", "create"])
+                              "broken", "remove", "touch", "create"] + (["same-stat"] * 4 if hash_only else []))
             hist.append(("ext", c, nme, pol, rng.randrange(50)))
             if rng.random() < 0.75:
                 hist.append(("get", c, nme))
@@ -851,6 +919,14 @@ def gen_history(rng, n):
 
 
 def perform(run, d, failures):
+    r = _perform(run, d, failures)
+    if run.rule_violations:
+        failures.append(("cache-entry-opened-for-writing-at-its-final-path", d, run.rule_violations[:2]))
+        run.rule_violations = []
+    return r
+
+
+def _perform(run, d, failures):
     """Execute one description on a run; returns the canonical response (None for external edits)."""
     k = d[0]
     if k == "mkcol":
@@ -862,6 +938,9 @@ def perform(run, d, failures):
                 '<D:resourcetype><D:collection/><CR:addressbook/></D:resourcetype></D:prop></D:set></D:mkcol>')
         return _resp(run, "MKCOL", "/%s/" % d[1], body)
     if k == "put":
+        return _resp(run, "PUT", "/%s/%s" % (d[1], d[2]), item_body(COLLS[d[1]], d[3], d[4]))
+    if k == "putfault":
+        run.fault = dict(where="upload", kind=d[5])
         return _resp(run, "PUT", "/%s/%s" % (d[1], d[2]), item_body(COLLS[d[1]], d[3], d[4]))
     if k == "get":
         r = _resp(run, "GET", "/%s/%s" % (d[1], d[2]))
@@ -936,6 +1015,13 @@ def do_ext(run, d):
         else:
             mt = run.tick() if pol == "same-size" else st.st_mtime_ns + (1 if pol == "mtime+1" else -1)
         run.ext_edit(c, tag, nme, data, mt)
+    elif pol == "same-stat":
+        # only in pairs that never use the mtime+size mode: same size, same mtime_ns, other bytes (rsync -t, cp -p)
+        data = ext_body(tag, uid, k, st.st_size)
+        if data is None or data == old:
+            run.ext_edit(c, tag, nme, ext_body(tag, uid, k), run.tick())
+        else:
+            run.ext_edit(c, tag, nme, data, st.st_mtime_ns, force=True)
     elif pol == "same-mtime":
         data = ext_body(tag, uid, k)
         if len(data) == st.st_size:
@@ -1016,7 +1102,7 @@ def check_multistatus(run, d, r, failures):
 GARBAGE = [b"garbage, not a pickle", pickle.dumps(()), pickle.dumps(("",) + (1,) * 7), pickle.dumps([])]
 
 
-def manipulate(run, rng, pool, counts, nxt=None):
+def manipulate(run, rng, pool, counts, nxt=None, hash_only=False):
     """Between two requests of run B: do 1-3 things to the cache / the configuration."""
     for _ in range(rng.choice([1, 1, 2, 3])):
         ents = run.entries()
@@ -1040,8 +1126,14 @@ def manipulate(run, rng, pool, counts, nxt=None):
             cp = rng.choice(cands)
             n = rng.choice(NAMES[COLLS[cp]])
             c, h = run.d.coll(cp), run.d.href(n)
-            if rng.random() < 0.12:
-                run.adv(("plant", sub, c, h, [3], rng.choice(GARBAGE)))
+            if rng.random() < 0.15:
+                blob = rng.choice(GARBAGE)
+                if pool and rng.random() < 0.3:
+                    cut = rng.choice(pool)[4]
+                    cut = cut[:rng.randrange(len(cut) // 3, len(cut) - 1)]      # a truncated pickle ...
+                    if run.entry_code(cut) == [3]:                              # ... of the kind that is swallowed
+                        blob = cut
+                run.adv(("plant", sub, c, h, [3], blob))
                 counts["manip:plant-unreadable"] += 1
                 continue
             same = [e for e in pool if (e[1], e[2]) == (c, h)]
@@ -1053,6 +1145,8 @@ def manipulate(run, rng, pool, counts, nxt=None):
             run.adv(("plant", sub, c, h, e[3], e[4]))
             counts["manip:plant-older-same-name" if (e[1], e[2]) == (c, h) else "manip:plant-other-name"] += 1
         elif x < 0.77:
+            if hash_only:
+                continue
             cfg = dict(run.cfg, stat=1 - run.cfg["stat"])
             run.reconfigure(cfg)
             counts["manip:switch-key-mode"] += 1
@@ -1114,12 +1208,17 @@ def run_pair(seed, length, keep_acts=True):
     """Returns a dict: cases (Gallina input/output text of both runs), failures (monitor), counts, diff."""
     import collections
     rng = random.Random("c13-%d" % seed)
-    hist = gen_history(rng, length)
-    base = dict(stat=rng.randrange(2), sub=rng.randrange(3), ver=0, skip=1 if rng.random() < 0.8 else 0)
-    cfg_b = dict(base, stat=rng.randrange(2), sub=rng.randrange(3))
+    # a quarter of the pairs never use the mtime+size mode: there "same size, same mtime, other bytes" edits are legal
+    hash_only = rng.random() < 0.25
+    STOCK[0] = rng.choice(["utf-8", "utf-8", "iso-8859-1", "cp1252"])
+    hist = gen_history(rng, length, hash_only)
+    base = dict(stat=0 if hash_only else rng.randrange(2), sub=rng.randrange(3), ver=0, skip=1 if rng.random() < 0.8 else 0)
+    cfg_b = dict(base, stat=0 if hash_only else rng.randrange(2), sub=rng.randrange(3))
     dic = Dict()
     counts = collections.Counter()
-    out = dict(seed=seed, failures=[], cases=[], unmodelled=[], base=base, cfg_b=cfg_b)
+    out = dict(seed=seed, failures=[], cases=[], unmodelled=[], base=base, cfg_b=cfg_b, stock=STOCK[0], hash_only=hash_only)
+    counts["pair:stock=%s" % STOCK[0]] += 1
+    counts["pair:hash-only" if hash_only else "pair:both-modes"] += 1
     resp = {}
     for label in ("A", "B"):
         rb = random.Random("c13-%d-B" % seed)
@@ -1130,7 +1229,7 @@ def run_pair(seed, length, keep_acts=True):
         try:
             for i, d in enumerate(hist):
                 if label == "B" and i >= 4 and rb.random() < 0.6:
-                    manipulate(run, rb, pool, counts, d)
+                    manipulate(run, rb, pool, counts, d, hash_only)
                 itf = run.interfere
                 # run.request() clears the interference; keep it alive for this request only
                 r = perform_with_interference(run, d, fails, itf)
